@@ -1,10 +1,11 @@
 import Blue.Proofs.TupleKey1Parse
 import Blue.Proofs.TupleKey2T
+import Blue.Proofs.TupleEmbed1
 import Blue.Proofs.ConstsTieC16
 /-! # Property C16 — tuple-key encodings sort byte-wise exactly as their tuples, and decode back
 
 Property theorems only (helper lemmas live in `Blue/Proofs/{TupleKey1,TupleKey2,Digits,TupleString,
-TupleDecode,TupleStringDecode,TupleKey1T,TupleKey1Parse,TupleKey2T}.lean`).
+TupleDecode,TupleStringDecode,TupleKey1T,TupleKey1Parse,TupleKey2T,TupleEmbed,TupleEmbed1}.lean`).
 
 Two models, both tied to the crates byte for byte by the correspondence check:
 * `Blue.TupleKey1` — the field-numbered format (`tuple_key`): tag = rotated varint of
@@ -12,15 +13,28 @@ Two models, both tied to the crates byte for byte by the correspondence check:
   `reverse_encoding` for `Direction::Reverse`, `TupleKeyIterator`/`TupleKeyParser`.
 * `Blue.TupleKey2` — the compact format (`tuple_key2`): length-tagged big-endian integers,
   `00 → 00 ff` escaped byte strings with `00 00` terminator, `TupleKeyParser` with its `Error`s.
+  This format has no per-element directions (every element ascends).
 
 `Strong enc lt` says: whenever `lt a b`, `enc a ++ x` is byte-wise below `enc b ++ y` *whatever*
-`x` and `y` are — order embedding and self-delimitation at once, which is what makes tuples compose
-(`strong_pair`) and keeps keys with a common prefix contiguous.
+`x` and `y` are — strict monotonicity and self-delimitation at once, which is what makes tuples
+compose (`strong_pair`) and keeps keys with a common prefix contiguous.  `Strong` is ONE direction
+(tuple order ⇒ byte order).  The other direction (byte order ⇒ tuple order), which makes it an
+order embedding, is the family `*_iff` below: for two values of the same element type
+`blt (enc a ++ x) (enc b ++ y) = true ↔ lt a b ∨ (a = b ∧ blt x y = true)`, from `Strong` and the
+trichotomy of the order (`order_embedding`, `tupleLt_trichotomy`, `rowLt_trichotomy`); injectivity
+of whole keys comes from the round trips (`tuple_injective`, `compact_injective`).
 
 The one place where the property is false is stated as theorems too: descending strings of the
-field-numbered format (D-20) — `string_desc_counterexample`, and exactly which pairs go wrong:
-`string_desc_partial` (all pairs outside `ContTie` are right) and `string_desc_tie_ascending`
-(all pairs inside `ContTie` are wrong). -/
+field-numbered format (D-20) — `string_desc_counterexample` (over all `List Nat`) and
+`string_desc_counterexample_utf8` (inside the real domain: valid UTF-8 strings), and exactly which
+pairs go wrong: `string_desc_order_exact` / `string_desc_correct_iff` (a descending pair is sorted
+correctly iff it is outside `ContTie`), from `string_desc_partial` (all pairs outside `ContTie` are
+right) and `string_desc_tie_ascending` (all pairs inside `ContTie` are wrong).
+
+Not theorems here (see `partial` in bin/props.py): "decoding arbitrary bytes returns an error
+rather than panicking" — the model decoders are total functions, so the clause has no content on
+the model; it is observed on the implementation (hostile-buffer streams, a panic is an oracle
+failure). -/
 namespace Blue.Props.C16
 open Blue.TupleKey2 (blt Strong slt)
 
@@ -83,12 +97,75 @@ theorem i64_desc :
     Strong (fun v => reverse (encI64 v)) (fun a b => b < a ∧ -9223372036854775808 ≤ b ∧ a < 9223372036854775808) :=
   encI64_rev_strong
 
+/-- **the converse of `Strong`, generic**: where `lt` is trichotomous on the pair, the comparison
+    of the two encodings (with anything behind them) is decided exactly by `lt`, and by what
+    follows when the two values are equal — so a `Strong` encoding of a trichotomous order is an
+    order embedding.  Every `*_iff` below is an instance. -/
+theorem order_embedding {α : Type} {enc : α → List Nat} {lt : α → α → Prop} (h : Strong enc lt)
+    {a b : α} (tri : lt a b ∨ a = b ∨ lt b a) (x y : List Nat) :
+    blt (enc a ++ x) (enc b ++ y) = true ↔ lt a b ∨ (a = b ∧ blt x y = true) :=
+  Blue.TupleKey2.strong_decides h tri x y
+
+/-- byte order ⇒ value order, and injectivity, under the same trichotomy -/
+theorem order_reflected {α : Type} {enc : α → List Nat} {lt : α → α → Prop} (h : Strong enc lt)
+    {a b : α} (tri : lt a b ∨ a = b ∨ lt b a) :
+    (blt (enc a) (enc b) = true → lt a b) ∧ (enc a = enc b → a = b) :=
+  ⟨Blue.TupleKey2.strong_reflect h tri, Blue.TupleKey2.strong_injective h tri⟩
+
+/-- `blt` (`<[u8] as Ord>::lt`) is a strict total order: asymmetric and trichotomous (irreflexive
+    and transitive are `blt_irrefl`, `blt_trans`) -/
+theorem byte_order_total (x y : List Nat) :
+    (blt x y = true → blt y x = false) ∧ (blt x y = true ∨ x = y ∨ blt y x = true) :=
+  ⟨Blue.TupleKey2.blt_asymm, Blue.TupleKey2.blt_trichotomy x y⟩
+
+/-! integers of the field-numbered format: byte order ⇔ value order, ascending and descending -/
+theorem u32_asc_iff {a b : Nat} (ha : a < 4294967296) (hb : b < 4294967296) (x y : List Nat) :
+    blt (encU32 a ++ x) (encU32 b ++ y) = true ↔ a < b ∨ (a = b ∧ blt x y = true) := encU32_order_iff ha hb x y
+theorem u32_desc_iff {a b : Nat} (ha : a < 4294967296) (hb : b < 4294967296) (x y : List Nat) :
+    blt (reverse (encU32 a) ++ x) (reverse (encU32 b) ++ y) = true ↔ b < a ∨ (a = b ∧ blt x y = true) :=
+  encU32_rev_order_iff ha hb x y
+theorem u64_asc_iff {a b : Nat} (ha : a < 18446744073709551616) (hb : b < 18446744073709551616) (x y : List Nat) :
+    blt (encU64 a ++ x) (encU64 b ++ y) = true ↔ a < b ∨ (a = b ∧ blt x y = true) := encU64_order_iff ha hb x y
+theorem u64_desc_iff {a b : Nat} (ha : a < 18446744073709551616) (hb : b < 18446744073709551616) (x y : List Nat) :
+    blt (reverse (encU64 a) ++ x) (reverse (encU64 b) ++ y) = true ↔ b < a ∨ (a = b ∧ blt x y = true) :=
+  encU64_rev_order_iff ha hb x y
+theorem i32_asc_iff {a b : Int} (ha : -2147483648 ≤ a ∧ a < 2147483648) (hb : -2147483648 ≤ b ∧ b < 2147483648)
+    (x y : List Nat) :
+    blt (encI32 a ++ x) (encI32 b ++ y) = true ↔ a < b ∨ (a = b ∧ blt x y = true) := encI32_order_iff ha hb x y
+theorem i32_desc_iff {a b : Int} (ha : -2147483648 ≤ a ∧ a < 2147483648) (hb : -2147483648 ≤ b ∧ b < 2147483648)
+    (x y : List Nat) :
+    blt (reverse (encI32 a) ++ x) (reverse (encI32 b) ++ y) = true ↔ b < a ∨ (a = b ∧ blt x y = true) :=
+  encI32_rev_order_iff ha hb x y
+theorem i64_asc_iff {a b : Int} (ha : -9223372036854775808 ≤ a ∧ a < 9223372036854775808)
+    (hb : -9223372036854775808 ≤ b ∧ b < 9223372036854775808) (x y : List Nat) :
+    blt (encI64 a ++ x) (encI64 b ++ y) = true ↔ a < b ∨ (a = b ∧ blt x y = true) := encI64_order_iff ha hb x y
+theorem i64_desc_iff {a b : Int} (ha : -9223372036854775808 ≤ a ∧ a < 9223372036854775808)
+    (hb : -9223372036854775808 ≤ b ∧ b < 9223372036854775808) (x y : List Nat) :
+    blt (reverse (encI64 a) ++ x) (reverse (encI64 b) ++ y) = true ↔ b < a ∨ (a = b ∧ blt x y = true) :=
+  encI64_rev_order_iff ha hb x y
+
 /-- ascending strings: byte strings compare as their encodings, a string before its extensions -/
 theorem string_asc : Strong encString (fun s t => blt s t = true ∧ Bytes s ∧ Bytes t) := encString_strong
 
-/-- **D-20** descending strings do NOT sort in reverse (`""` vs `"\0"`) -/
+/-- ascending strings, both directions: the encodings (with anything behind them) compare exactly
+    as the byte strings -/
+theorem string_asc_iff {s t : List Nat} (hs : Bytes s) (ht : Bytes t) (x y : List Nat) :
+    blt (encString s ++ x) (encString t ++ y) = true ↔ blt s t = true ∨ (s = t ∧ blt x y = true) :=
+  encString_order_iff hs ht x y
+
+/-- **D-20** descending strings do NOT sort in reverse (`""` vs `"\0"`).  Stated over all
+    `List Nat` (a superset of the domain); `string_desc_counterexample_utf8` is the statement
+    inside the domain. -/
 theorem string_desc_counterexample : ¬ Strong (fun s => reverse (encString s)) (fun a b => slt b a) :=
   Blue.TupleKey1.string_desc_counterexample
+
+/-- **D-20 inside the real domain**: restricted to byte strings that are valid UTF-8 (what a Rust
+    `String` holds) descending strings still do not sort in reverse — the witness `""` / `"\0"`
+    is a pair of valid strings -/
+theorem string_desc_counterexample_utf8 :
+    ¬ Strong (fun s => reverse (encString s))
+        (fun a b => blt b a = true ∧ Bytes a ∧ Bytes b ∧ Blue.Utf8.valid a = true ∧ Blue.Utf8.valid b = true) :=
+  Blue.TupleKey1.string_desc_counterexample_utf8
 
 /-- descending strings, what does hold: every pair whose forward encodings first differ in a
     data bit.  `_partial` because the full statement is `string_desc_counterexample`-false; the
@@ -108,10 +185,44 @@ theorem string_desc_tie_ascending (s t : List Nat) (h : ContTie (encString s) (e
 theorem contTie_decidable (x y : List Nat) : ContTie x y ↔ contTieB x y = true := contTie_iff x y
 
 /-- every pair of strings in ascending order is decided either in data bits or in the
-    continuation bit: nothing else can happen, so D-20's class is complete -/
+    continuation bit: nothing else can happen, so D-20's class is complete (inclusive or;
+    exclusivity is `string_pairs_exclusive`, the converse `string_pairs_iff`) -/
 theorem string_pairs_dichotomy {s t : List Nat} (h : blt s t = true) (hs : Bytes s) (ht : Bytes t) :
     DataLt (encString s) (encString t) ∨ ContTie (encString s) (encString t) :=
   strong_dichotomy encString_strong (a := s) (b := t) ⟨h, hs, ht⟩
+
+/-- the two cases exclude each other (for any two byte strings, not only encodings) -/
+theorem string_pairs_exclusive {u v : List Nat} (h1 : DataLt u v) (h2 : ContTie u v) : False :=
+  dataLt_contTie_exclusive h1 h2
+
+/-- the dichotomy is an equivalence: `s < t` iff the encodings first differ in data bits or in
+    the continuation bit, in that direction -/
+theorem string_pairs_iff {s t : List Nat} (hs : Bytes s) (ht : Bytes t) :
+    blt s t = true ↔ (DataLt (encString s) (encString t) ∨ ContTie (encString s) (encString t)) :=
+  Blue.TupleKey1.string_pairs_iff hs ht
+
+/-- … and exactly one of the two holds -/
+theorem string_pairs_exactly_one {s t : List Nat} (h : blt s t = true) (hs : Bytes s) (ht : Bytes t) :
+    (DataLt (encString s) (encString t) ∧ ¬ ContTie (encString s) (encString t))
+    ∨ (ContTie (encString s) (encString t) ∧ ¬ DataLt (encString s) (encString t)) :=
+  Blue.TupleKey1.string_pairs_exactly_one h hs ht
+
+/-- **D-20, the exact order of descending strings**: the inverted encodings of `s` and `t` (with
+    anything behind them) compare as `t < s` when the pair is outside `ContTie`, as `s < t` — the
+    wrong way round — when the forward encodings of `s`, `t` first differ in the continuation
+    bit, and by what follows when `s = t`; nothing else -/
+theorem string_desc_order_exact {s t : List Nat} (hs : Bytes s) (ht : Bytes t) (x y : List Nat) :
+    blt (reverse (encString s) ++ x) (reverse (encString t) ++ y) = true ↔
+      ((blt t s = true ∧ ¬ ContTie (encString t) (encString s))
+        ∨ ContTie (encString s) (encString t) ∨ (s = t ∧ blt x y = true)) :=
+  Blue.TupleKey1.string_desc_order_exact hs ht x y
+
+/-- **D-20's class is exact**: a pair `t < s` under `Direction::Reverse` is sorted the right way
+    round (`s` first) iff it is outside `ContTie` -/
+theorem string_desc_correct_iff {s t : List Nat} (hs : Bytes s) (ht : Bytes t) (h : blt t s = true)
+    (x y : List Nat) :
+    blt (reverse (encString s) ++ x) (reverse (encString t) ++ y) = true ↔ ¬ ContTie (encString t) (encString s) :=
+  Blue.TupleKey1.string_desc_correct_iff hs ht h x y
 
 /-- one tagged field (`extend_with_key`): tag, then the element, inverted if `Reverse` -/
 theorem field_order (f : Nat) (d : Dir) :
@@ -121,6 +232,33 @@ theorem field_order (f : Nat) (d : Dir) :
     (reversed per descending element; descending strings minus D-20's pairs), whatever follows -/
 theorem tuple_order : Strong encTuple (fun a b => TupleInRange a ∧ TupleInRange b ∧ tupleLt a b) :=
   encTuple_strong
+
+/-- one tagged field, both directions of the equivalence: two in-range values of the same element
+    type (a descending string pair: outside D-20's class, `FieldTieFree`) compare in their encoded
+    fields exactly as `fieldLt d`, or are equal and what follows decides -/
+theorem field_order_iff (f : Nat) (d : Dir) {a b : Val} (ha : a.InRange) (hb : b.InRange)
+    (hty : a.ty = b.ty) (hnt : FieldTieFree d a b) (x y : List Nat) :
+    blt (encField f d a ++ x) (encField f d b ++ y) = true ↔ fieldLt d a b ∨ (a = b ∧ blt x y = true) :=
+  encField_order_iff f d ha hb hty hnt x y
+
+/-- `tupleLt` is trichotomous on tuples with the same field numbers, element types and directions
+    (`schemaOf`: the property's quantifier), descending strings outside D-20's class -/
+theorem tupleLt_trichotomy {a b : List (Nat × Dir × Val)} (hs : schemaOf a = schemaOf b) (hn : TupleTieFree a b) :
+    tupleLt a b ∨ a = b ∨ tupleLt b a := Blue.TupleKey1.tupleLt_trichotomy hs hn
+
+/-- **tuples, order embedding**: for two in-range tuples with the same field numbers, element types
+    and directions (descending strings outside D-20's class) comparing the encoded keys — with
+    anything behind them — gives the same result as comparing the tuples element by element -/
+theorem tuple_order_iff {a b : List (Nat × Dir × Val)} (ia : TupleInRange a) (ib : TupleInRange b)
+    (hs : schemaOf a = schemaOf b) (hn : TupleTieFree a b) (x y : List Nat) :
+    blt (encTuple a ++ x) (encTuple b ++ y) = true ↔ tupleLt a b ∨ (a = b ∧ blt x y = true) :=
+  encTuple_order_iff ia ib hs hn x y
+
+/-- **injectivity** (from the round trip, D-20's pairs included): two tuples `extend_with_key`
+    accepts, with the same field numbers, types and directions and the same key bytes, are equal -/
+theorem tuple_injective {a b : List (Nat × Dir × Val)} (oa : ∀ e ∈ a, ElemOk e) (ob : ∀ e ∈ b, ElemOk e)
+    (hs : schemaOf a = schemaOf b) (he : encTuple a = encTuple b) : a = b :=
+  encTuple_injective oa ob hs he
 
 /-- prefix contiguity: a tuple sorts before each of its extensions … -/
 theorem tuple_extension_after (t e : List (Nat × Dir × Val)) (he : e ≠ []) :
@@ -158,6 +296,17 @@ theorem compact_u64 : Strong encodeU64 (fun a b => a < b) := encodeU64_strong
 theorem compact_i64 : Strong encodeI64 (fun a b => a < b ∧ I64 a ∧ I64 b) := encodeI64_strong
 theorem compact_bytes : Strong encodeBytes slt := encodeBytes_strong
 
+/-! the converse for the compact elements: byte order ⇔ value order -/
+theorem compact_u64_iff (a b : Nat) (x y : List Nat) :
+    blt (encodeU64 a ++ x) (encodeU64 b ++ y) = true ↔ a < b ∨ (a = b ∧ blt x y = true) :=
+  encodeU64_order_iff a b x y
+theorem compact_i64_iff {a b : Int} (ha : I64 a) (hb : I64 b) (x y : List Nat) :
+    blt (encodeI64 a ++ x) (encodeI64 b ++ y) = true ↔ a < b ∨ (a = b ∧ blt x y = true) :=
+  encodeI64_order_iff ha hb x y
+theorem compact_bytes_iff (a b : List Nat) (x y : List Nat) :
+    blt (encodeBytes a ++ x) (encodeBytes b ++ y) = true ↔ slt a b ∨ (a = b ∧ blt x y = true) :=
+  encodeBytes_order_iff a b x y
+
 /-- lexicographic pairs of strong encodings are strong (the step of every tuple theorem) -/
 theorem strong_pair {α β : Type} {ea : α → List Nat} {eb : β → List Nat}
     {la : α → α → Prop} {lb : β → β → Prop} (ha : Strong ea la) (hb : Strong eb lb) :
@@ -171,12 +320,41 @@ theorem compact_tuple_order {ra rb : List (Ty × Val)} {ea eb : List Nat}
     (h : rowLt (ra.map (·.2)) (rb.map (·.2))) (x y : List Nat) : blt (ea ++ x) (eb ++ y) = true :=
   encRow_strong ha hb ia ib h x y
 
+/-- `rowLt` is trichotomous on value rows of the same kinds -/
+theorem rowLt_trichotomy {a b : List Val} (h : RowSameKind a b) : rowLt a b ∨ a = b ∨ rowLt b a :=
+  Blue.TupleKey2.rowLt_trichotomy h
+
+/-- **tuples, order embedding**, as the builder the driver runs encodes them: for two in-range
+    rows written with the same method sequence, comparing the keys — with anything behind them —
+    gives the same result as comparing the rows element by element -/
+theorem compact_tuple_order_iff {ra rb : List (Ty × Val)} {ea eb : List Nat}
+    (ha : encRow ra = some ea) (hb : encRow rb = some eb) (hty : ra.map (·.1) = rb.map (·.1))
+    (ia : RowInRange (ra.map (·.2))) (ib : RowInRange (rb.map (·.2))) (x y : List Nat) :
+    blt (ea ++ x) (eb ++ y) = true ↔ rowLt (ra.map (·.2)) (rb.map (·.2)) ∨ (ra = rb ∧ blt x y = true) :=
+  encRow_order_iff ha hb hty ia ib x y
+
 theorem compact_extension_after (t e : List Val) (he : e ≠ []) : blt (encVals t) (encVals (t ++ e)) = true :=
   vals_extension_after t e he
 
 theorem compact_extension_before (t t' e e' : List Val) (ht : RowInRange t) (ht' : RowInRange t')
     (h : rowLt t t') : blt (encVals (t ++ e)) (encVals (t' ++ e')) = true :=
   vals_extension_before t t' e e' ht ht' h
+
+/-- prefix contiguity over the builder model `encRow` the driver runs: a row sorts before each of
+    its extensions … -/
+theorem compact_extension_after_encRow {t e : List (Ty × Val)} {a b : List Nat} (ha : encRow t = some a)
+    (hb : encRow (t ++ e) = some b) (he : e ≠ []) : blt a b = true := encRow_extension_after ha hb he
+
+/-- … and every extension of `t` sorts before every extension of a row that sorts after `t` -/
+theorem compact_extension_before_encRow {t t' e e' : List (Ty × Val)} {a b : List Nat}
+    (ha : encRow (t ++ e) = some a) (hb : encRow (t' ++ e') = some b)
+    (it : RowInRange (t.map (·.2))) (it' : RowInRange (t'.map (·.2)))
+    (h : rowLt (t.map (·.2)) (t'.map (·.2))) : blt a b = true := encRow_extension_before ha hb it it' h
+
+/-- bridge: `encVals` (in which `compact_extension_after/_before` and `compact_roundtrip_vals` are stated) is
+    what the builder model `encRow`, the function the driver runs, produces -/
+theorem compact_encRow_eq {r : List (Ty × Val)} {bs : List Nat} (h : encRow r = some bs) :
+    bs = encVals (r.map (·.2)) := encRow_eq h
 
 /-- element parsers invert the builder and hand over exactly what follows -/
 theorem compact_element_decoders :
@@ -187,10 +365,22 @@ theorem compact_element_decoders :
   ⟨fun v rest h => parseU64_encode v h rest, fun z rest h => parseI64_encode z h rest,
    parseBytes_encode, decodeBytes_encode⟩
 
-/-- **round trip**: the parser with the writer's type sequence returns the tuple and `finish`
-    accepts (all eleven builder methods, with their range checks) -/
+/-- **round trip**, over the builder model `encRow` the driver runs: the builder accepts every row
+    of well-typed values (all eleven builder methods, with their range checks), and the parser with
+    the writer's type sequence returns the row from those bytes and `finish` accepts -/
 theorem compact_roundtrip (r : List (Ty × Val)) (h : ∀ e ∈ r, TyOk e.1 e.2) :
+    ∃ bs, encRow r = some bs ∧ parseRow (r.map (·.1)) bs = (r.map (·.2), none) := parseRow_encRow r h
+
+/-- the same over `encVals` (the statement as it was before the audit) -/
+theorem compact_roundtrip_vals (r : List (Ty × Val)) (h : ∀ e ∈ r, TyOk e.1 e.2) :
     parseRow (r.map (·.1)) (encVals (r.map (·.2))) = (r.map (·.2), none) := parseRow_encode r h
+
+/-- **injectivity** (from the round trip): two well-typed rows with the same type sequence and the
+    same key bytes are equal -/
+theorem compact_injective {ra rb : List (Ty × Val)} {e : List Nat}
+    (ha : encRow ra = some e) (hb : encRow rb = some e) (hty : ra.map (·.1) = rb.map (·.1))
+    (oa : ∀ e ∈ ra, TyOk e.1 e.2) (ob : ∀ e ∈ rb, TyOk e.1 e.2) : ra = rb :=
+  encRow_injective ha hb hty oa ob
 
 end Compact
 
@@ -224,6 +414,51 @@ example : Blue.TupleKey2.TyOk .i8 (.int (-128)) ∧ Blue.TupleKey2.TyOk .str (.b
 example : Blue.TupleKey2.rowLt [.bytes [0], .int (-129)] [.bytes [0], .int (-128)] := by
   simp [Blue.TupleKey2.rowLt, Blue.TupleKey2.Val.lt]
 
+-- D-20 pairs made of valid UTF-8 strings only: "abcdefg" / "abcdefgh" (seven bytes fill eight
+-- chunks exactly, so EVERY extension is a tie) and "a" / "a\0"
+example : ContTie (encString [0x61, 0x62, 0x63, 0x64, 0x65, 0x66, 0x67])
+      (encString [0x61, 0x62, 0x63, 0x64, 0x65, 0x66, 0x67, 0x68])
+    ∧ Blue.Utf8.valid [0x61, 0x62, 0x63, 0x64, 0x65, 0x66, 0x67, 0x68] = true := by decide
+example : ContTie (encString [0x61]) (encString [0x61, 0]) ∧ Blue.Utf8.valid [0x61, 0] = true := by decide
+-- `string_desc_correct_iff` decides both ways on concrete pairs: "b" before "a" is right,
+-- "a\0" before "a" is not what the code does
+example : blt (reverse (encString [0x62])) (reverse (encString [0x61])) = true
+    ∧ blt (reverse (encString [0x61, 0])) (reverse (encString [0x61])) = false := by decide
+
+-- the hypotheses of `tuple_order_iff` on a pair that contains a descending string pair (outside
+-- D-20's class) and is decided there; the conclusion evaluated on the same pair
+example : schemaOf [(1, .fwd, .str [0x61]), (8, .rev, .str [0x62])] = schemaOf [(1, .fwd, .str [0x61]), (8, .rev, .str [0x61])] := rfl
+example : TupleTieFree [(1, .fwd, .str [0x61]), (8, .rev, .str [0x62])] [(1, .fwd, .str [0x61]), (8, .rev, .str [0x61])] := by
+  simp only [TupleTieFree, FieldTieFree, NoTie]
+  decide
+example : tupleLt [(1, .fwd, .str [0x61]), (8, .rev, .str [0x62])] [(1, .fwd, .str [0x61]), (8, .rev, .str [0x61])] := by
+  simp only [tupleLt, fieldLt, Val.lt, NoTie]
+  decide
+example : blt (encTuple [(1, .fwd, .str [0x61]), (8, .rev, .str [0x62])])
+    (encTuple [(1, .fwd, .str [0x61]), (8, .rev, .str [0x61])]) = true := by decide
+-- `TupleTieFree` is needed: on D-20's pair `tupleLt` is not trichotomous
+example : ¬ (tupleLt [(1, .rev, .str [])] [(1, .rev, .str [0])] ∨ [(1, Dir.rev, Val.str [])] = [(1, .rev, .str [0])]
+    ∨ tupleLt [(1, .rev, .str [0])] [(1, .rev, .str [])]) := by
+  simp only [tupleLt, fieldLt, Val.lt, NoTie]
+  decide
+
+-- compact format: the builder model on a two-element row (escaped zero byte, an integer just
+-- below the i8 range), the hypotheses of `compact_tuple_order_iff` and its conclusion on it
+example : Blue.TupleKey2.encRow [(.bytes, .bytes [0]), (.i16, .int (-129))] = some [0, 255, 0, 0, 0x17, 0x7f] := by
+  decide +kernel
+example : Blue.TupleKey2.encRow [(.bytes, .bytes [0]), (.i16, .int (-128))] = some [0, 255, 0, 0, 0x17, 0x80] := by
+  decide +kernel
+example : Blue.TupleKey2.RowInRange [.bytes [0], .int (-129)] := by
+  intro v hv
+  simp only [List.mem_cons, List.not_mem_nil, or_false] at hv
+  rcases hv with rfl | rfl
+  · trivial
+  · exact ⟨by omega, by omega⟩
+example : Blue.TupleKey2.RowSameKind [.bytes [0], .int (-129)] [.bytes [0], .int (-128)] := ⟨trivial, trivial, trivial⟩
+example : blt [0, 255, 0, 0, 0x17, 0x7f] [0, 255, 0, 0, 0x17, 0x80] = true := by decide
+-- the builder model refuses a value that is not of the method's argument type
+example : Blue.TupleKey2.encRow [(.u8, .int 3)] = none := by decide
+
 end NonVacuity
 
 end Blue.Props.C16
@@ -233,6 +468,9 @@ end Blue.Props.C16
 #print axioms Blue.Props.C16.signed_offsets_from_source
 #print axioms Blue.Props.C16.field_numbers_from_source
 #print axioms Blue.Props.C16.compact_tags_from_source
+#print axioms Blue.Props.C16.order_embedding
+#print axioms Blue.Props.C16.order_reflected
+#print axioms Blue.Props.C16.byte_order_total
 #print axioms Blue.Props.C16.u32_asc
 #print axioms Blue.Props.C16.u32_desc
 #print axioms Blue.Props.C16.u64_asc
@@ -241,14 +479,33 @@ end Blue.Props.C16
 #print axioms Blue.Props.C16.i32_desc
 #print axioms Blue.Props.C16.i64_asc
 #print axioms Blue.Props.C16.i64_desc
+#print axioms Blue.Props.C16.u32_asc_iff
+#print axioms Blue.Props.C16.u32_desc_iff
+#print axioms Blue.Props.C16.u64_asc_iff
+#print axioms Blue.Props.C16.u64_desc_iff
+#print axioms Blue.Props.C16.i32_asc_iff
+#print axioms Blue.Props.C16.i32_desc_iff
+#print axioms Blue.Props.C16.i64_asc_iff
+#print axioms Blue.Props.C16.i64_desc_iff
 #print axioms Blue.Props.C16.string_asc
+#print axioms Blue.Props.C16.string_asc_iff
 #print axioms Blue.Props.C16.string_desc_counterexample
+#print axioms Blue.Props.C16.string_desc_counterexample_utf8
 #print axioms Blue.Props.C16.string_desc_partial
 #print axioms Blue.Props.C16.string_desc_tie_ascending
 #print axioms Blue.Props.C16.contTie_decidable
 #print axioms Blue.Props.C16.string_pairs_dichotomy
+#print axioms Blue.Props.C16.string_pairs_exclusive
+#print axioms Blue.Props.C16.string_pairs_iff
+#print axioms Blue.Props.C16.string_pairs_exactly_one
+#print axioms Blue.Props.C16.string_desc_order_exact
+#print axioms Blue.Props.C16.string_desc_correct_iff
 #print axioms Blue.Props.C16.field_order
 #print axioms Blue.Props.C16.tuple_order
+#print axioms Blue.Props.C16.field_order_iff
+#print axioms Blue.Props.C16.tupleLt_trichotomy
+#print axioms Blue.Props.C16.tuple_order_iff
+#print axioms Blue.Props.C16.tuple_injective
 #print axioms Blue.Props.C16.tuple_extension_after
 #print axioms Blue.Props.C16.tuple_extension_before
 #print axioms Blue.Props.C16.element_decoders
@@ -256,9 +513,19 @@ end Blue.Props.C16
 #print axioms Blue.Props.C16.compact_u64
 #print axioms Blue.Props.C16.compact_i64
 #print axioms Blue.Props.C16.compact_bytes
+#print axioms Blue.Props.C16.compact_u64_iff
+#print axioms Blue.Props.C16.compact_i64_iff
+#print axioms Blue.Props.C16.compact_bytes_iff
 #print axioms Blue.Props.C16.strong_pair
 #print axioms Blue.Props.C16.compact_tuple_order
+#print axioms Blue.Props.C16.rowLt_trichotomy
+#print axioms Blue.Props.C16.compact_tuple_order_iff
 #print axioms Blue.Props.C16.compact_extension_after
 #print axioms Blue.Props.C16.compact_extension_before
+#print axioms Blue.Props.C16.compact_extension_after_encRow
+#print axioms Blue.Props.C16.compact_extension_before_encRow
+#print axioms Blue.Props.C16.compact_encRow_eq
 #print axioms Blue.Props.C16.compact_element_decoders
 #print axioms Blue.Props.C16.compact_roundtrip
+#print axioms Blue.Props.C16.compact_roundtrip_vals
+#print axioms Blue.Props.C16.compact_injective
